@@ -113,7 +113,7 @@ func init() {
 
 func init() {
 	Properties["C20"] = PropSpec{
-		Rules:       []Rule{ResultAlgebra, ResLinear},
+		Rules:       []Rule{ResultAlgebra, ResLinear, PoolAPI},
 		Explanation: "RESULT-ALGEBRA, structural laws checked on SSA rather than by running sequences: each of Merge/MergeAsErrors/MergeAsWarnings/mergeForField/mergeForSlice tests its operand against nil, visits all operands (no return before the loop is exhausted), and applies exactly once per non-nil operand, on every path, the documented matrix of effects (which of AddErrors/AddWarnings receives the operand's Errors and Warnings, MatchCount += operand.MatchCount, resetCaches, redeem under wantsRedeemOnMerge) and no other; AddErrors/AddWarnings only write append(<own list>, e), only on the e != nil edge, guarded by a condition that depends on comparing e.Error() with the Error() of the elements of the same list and that is recomputed per message (backward slice does not cross the outer loop header); IsValid is len(Errors)==0, queries dereference the receiver only when non-nil, Inc adds one; RES-ALIAS: no slice header of Errors/Warnings escapes or enters a Result (only elements are copied), which is what makes later changes to an operand invisible in the merged result; RES-LINEAR: operands are not used after their release. dedupe-every-element: the duplicate search compares the text of every element it visits. Nil-safe queries: every exported niladic method of *Result tolerates a nil receiver (four did not: fixed).",
 		NotDecided:  "Equivalence with an ordered-set model over arbitrary operation sequences (nothing is executed): the laws above are the structural facts that equivalence rests on. Judgement call found by probing, not decided: a typed-nil error is appended.",
 		Assumptions: []string{"errors.CompositeValidationError copies its arguments (read from errors@v0.22.1)", trustDeps},
